@@ -699,16 +699,25 @@ Definition py_getitem (d : tdesc) (t : tbl) (i : Z) : res row :=
 
 (* table[slice | mask | ids]: ret = cls(); ret.metadata_schema = self.metadata_schema;
    ret.ll_table.extend(self.ll_table, row_indexes=idx).  Only MetadataTable subclasses
-   (the tables with a metadata column) have a metadata_schema attribute; for
-   ProvenanceTable BaseTable.__getattr__ raises AttributeError (finding F8). *)
+   (the tables with a metadata column) have a metadata_schema attribute.  At the pinned
+   commit the copy was unconditional and BaseTable.__getattr__ raised AttributeError for
+   ProvenanceTable (finding F8, [guarded = false]); the repaired code guards it with
+   hasattr.  Which variant the code has is regenerated (c13_getitem_schema_guarded). *)
 Definition has_schema (d : tdesc) : bool := match td_md d with Some _ => true | None => false end.
 
-Definition py_getitem_idx (d : tdesc) (t : tbl) (idx : list Z) : res (list row) :=
-  if negb (has_schema d) then Err PY_ATTRIBUTE_ERROR else
+Definition py_getitem_idx_gen (guarded : bool) (d : tdesc) (t : tbl) (idx : list Z) : res (list row) :=
+  if negb (has_schema d) && negb guarded then Err PY_ATTRIBUTE_ERROR else
   match extend d (init d 0) t idx with
   | (t', Ok _) => Ok (abs t')
   | (_, e) => match e with Ok _ => OOB | Err c => Err c | OOB => OOB | Fuel => Fuel end
   end.
+
+Definition py_getitem_idx := py_getitem_idx_gen c13_getitem_schema_guarded.
+
+(* the pinned (pre-fix) variant of a descriptor whose binding let metadata_offset set
+   num_rows (finding F15) *)
+Definition with_mdlen_bug (d : tdesc) (b : bool) : tdesc :=
+  mkDesc (td_kinds d) (td_nr d) (td_order d) (td_selfref d) (td_md d) (td_assert d) (td_oob d) b.
 
 Definition py_setitem (d : tdesc) (t : tbl) (i : Z) (r : row) : step :=
   match py_index (nrows t) i with
